@@ -165,7 +165,7 @@ static void run() {
     auto &a = vp::args();
     vp::CaseScope scope([] { return serc(g_cur); });
     size_t maxsize = a.thorough() ? 64 : 24;
-    vp::stats().rule = vp::fmt("enum: data size 1..%zu x placement {0,1,5,40} x {default trivial sum, CRC-16/ARC, 32-bit sum} x aux buffer {none, sizes 0..size+1} x order of place/sum calls, and with the medium mapped so that the instance ends at address 0xffffffff (incl. instances first configured with the checksum of the other width and then re-configured); per configuration: "
+    vp::stats().rule = vp::fmt("enum: data size 1..%zu x placement {0,1,5,40} x {default trivial sum, CRC-16/ARC, 32-bit sum} x aux buffer {none, sizes 0..size+1} x order of place/sum calls, with the medium mapped so that the instance ends at address 0xffffffff, and with instances copied away from where they were configured (incl. instances first configured with the checksum of the other width and then re-configured); per configuration: "
                                "full store, every (offset,length) partial store/fetch incl. refused and arithmetic-overflow pairs, every single-octet alteration x 3 deltas, stores over a medium altered out of band and of an image with the same octet sum as the stored one, reset with 3 fill values; "
                                "every medium access is logged and checked against the instance's region; medium-call budget per operation; plus data sizes 255..257, 65535..65537, 70000 (thorough: 2^17+-1) with aux sizes around 2^8/2^16 and sampled part accesses/alterations", maxsize);
     vp::stats().exhaustive = true;
@@ -193,6 +193,16 @@ static void run() {
         if (aux == 0 && vp::excluded("validate:no-progress")) { vp::stats().excluded++; continue; }
         battery(c);
         vp::nontrivial(vp::fnv(ser(c.cfg))); vp::cls("medium-at-the-top-of-the-address-space");
+        if (vp::too_many_failures()) return;
+    }
+    // instances that were configured in one place and are used from another
+    for (size_t size = 1; size <= maxsize; size += 3) for (int cs = 0; cs < 3; cs++) for (long aux : {-1L, 0L, 2L, (long)size}) {
+        if (idx++ % a.nshards != a.shard) continue;
+        Case c{{size, 1, cs, aux, (int)(size % 3 == 0 ? 2 : size % 2)}, a.seed}; c.cfg.moved = 1;
+        if (c.cfg.order == 2 && cs == 0) c.cfg.order = 0;
+        if (aux == 0 && vp::excluded("validate:no-progress")) { vp::stats().excluded++; continue; }
+        battery(c);
+        vp::nontrivial(vp::fnv(ser(c.cfg))); vp::cls("instance-used-from-another-place-than-it-was-configured-in");
         if (vp::too_many_failures()) return;
     }
     large_configs(a.thorough());
